@@ -8,7 +8,7 @@ in-process.  Checked: (a) the bytes written per received chunk and the final sto
 request to a hosted unit, in request order, carrying the request's transaction id (TCP), unit id and function code
 (or code | 0x80); nothing for broadcast / ignored requests; no other bytes."""
 from harness.runner import Report
-from harness import execlib, serverlib, frontends
+from harness import execlib, serverlib, frontends, framelib
 from harness.c04 import gen_history
 
 ASSUMPTIONS = ['event loops and sockets are replaced by in-process fakes that hand each chunk to the real handler in order',
@@ -46,7 +46,7 @@ def gen_case(rng, frontend=None):
             continue   # on RTU the byte count field delimits the frame: a mismatch is a framing error, not a request
         pdu = r['pdu'] if r['t'] == 'raw' else list(execlib.enc_req(r))
         f = serverlib.frame_pdu(framer, pdu, uid, tid)
-        if framer == 'binary' and any(b in (0x7B, 0x7D) for b in f[1:-1]):
+        if framer == 'binary' and framelib.has_delim(f):
             continue
         reqs.append(execlib.strip(r))
         frames.append(f)
@@ -150,7 +150,7 @@ def check(ctx, rep, cases, where='server history'):
                         ok = False
                     if e == 'gateway' and not (p['msg']['t'] == 'exception' and p['msg']['code'] in (10, 11)):
                         ok = False
-            if not ok and c['framer'] == 'binary' and any(b in (0x7B, 0x7D) for f in frames for b in f[1:-1]):
+            if not ok and c['framer'] == 'binary' and any(framelib.has_delim(f) for f in frames):
                 rep.violation('a binary response frame contains a delimiter byte', case, finding='binary-framer-escaping')
                 break
             if not ok:
